@@ -469,7 +469,9 @@ def _xyz2thetaphi(x, y, z):
     """
     returns theta, phi in radians relative to the SDSS node at ra=95 degrees
     """
-    phi = arcsin(z)
+    # arctan2 keeps full precision near the poles and does not require
+    # the vector to be exactly normalised
+    phi = arctan2(z, sqrt(x * x + y * y))
     theta = arctan2(y, x)
 
     return theta, phi
